@@ -4,6 +4,7 @@ package ev
 
 import (
 	"crypto/sha256"
+	"encoding/binary"
 	"encoding/hex"
 	"encoding/json"
 	"fmt"
@@ -51,7 +52,8 @@ type Run struct {
 	mu           sync.Mutex
 	start        time.Time
 	evaluations  int64
-	distinct     map[[16]byte]struct{}
+	distinct     map[uint64]struct{} // 64-bit prefixes of SHA-256 (a count, not an identity); bounded, see distinctCap
+	distinctOver int64               // non-trivial cases seen after the set was full (not counted as distinct)
 	samples      []any
 	maxSamples   int
 	counters     map[string]int64
@@ -84,7 +86,7 @@ func New(prop, tier string, seed int64, level, rule string) *Run {
 	r := &Run{
 		Prop: prop, Tier: tier, Seed: seed, Level: level, Rule: rule,
 		start:      time.Now(),
-		distinct:   map[[16]byte]struct{}{},
+		distinct:   map[uint64]struct{}{},
 		maxSamples: 6,
 		counters:   map[string]int64{},
 		sets:       map[string]map[string]struct{}{},
@@ -122,15 +124,23 @@ func (r *Run) Replaying() *ReplayFile { return r.replaying }
 // tells whether it is non-trivial by the property's stated rule.
 func (r *Run) Case(desc string, nontrivial bool) {
 	h := sha256.Sum256([]byte(desc))
-	var k [16]byte
-	copy(k[:], h[:16])
+	k := binary.LittleEndian.Uint64(h[:8])
 	r.mu.Lock()
 	r.evaluations++
 	if nontrivial {
-		r.distinct[k] = struct{}{}
+		if len(r.distinct) < distinctCap {
+			r.distinct[k] = struct{}{}
+		} else if _, ok := r.distinct[k]; !ok {
+			r.distinctOver++ // the reported number of distinct cases is then a lower bound
+		}
 	}
 	r.mu.Unlock()
 }
+
+// distinctCap bounds the memory of the distinct-case set (about 1.5 GiB when full). Thorough
+// explorations evaluate more cases than that; the reported distinct count is then a lower bound
+// and the evidence says so (distinct_case_set_full).
+const distinctCap = 40_000_000
 
 // MergeCounts adds case counts measured by a child process. The caller guarantees that the
 // children's case sets are disjoint (e.g. partitioned by decoder), so the counts can be added.
@@ -305,6 +315,9 @@ func (r *Run) Finish() int {
 	}
 	for k, s := range r.sets {
 		observed["distinct_"+k] = len(s)
+	}
+	if r.distinctOver > 0 {
+		observed["distinct_case_set_full_further_nontrivial_cases_not_counted_as_distinct"] = r.distinctOver
 	}
 	cov := map[string]any{
 		"evaluations":         r.evaluations,
